@@ -217,6 +217,10 @@ pub fn run(args: &Args) {
                 match c {
                     Ok(Ok(x)) => {
                         // the same string always yields the same tree
+                        // the handle reports the text it was compiled from
+                        if x.as_str() != exprs[e] || format!("{}", x) != exprs[e] || format!("{:?}", x) != exprs[e] || x != x.clone() {
+                            rep.violation("C13/expression-text-accessors-disagree", json!({"expression": exprs[e], "as_str": x.as_str(), "display": format!("{}", x)}));
+                        }
                         let a = format!("{:?}", x.as_ast());
                         if ast_prints[e].as_ref() != Some(&a) {
                             rep.violation("C13/compile-yields-different-tree", json!({"expression": exprs[e], "history": h}));
